@@ -67,10 +67,11 @@ theorem newton_terminates (empty : Bool) (x0 : X) :
     have := outer_evals wd o o.maxiter 0 _ (good_init wd o x0)
     simpa using this
 
-/-- **newton_failure_is_reported**: with `MAXITER ≥ 1` and `BT_MAXITER ≥ 1` every exit is a returned triple; a triple that is
-not `converged` has status `error` and one of the four error messages.  (With `MAXITER = 0` or `BT_MAXITER = 0` the code
-can die with UnboundLocalError -- `newton_crash_only_with_zero_limits`.) -/
-theorem newton_failure_is_reported (empty : Bool) (x0 : X) (h1 : 1 ≤ o.maxiter) (h2 : 1 ≤ o.btMaxiter) :
+/-- **newton_failure_is_reported**: when the loop variables are bound before the loops (`zeroSafe`, fix
+C16-newton-zero-limits) -- or `MAXITER ≥ 1` and `BT_MAXITER ≥ 1` -- every exit is a returned triple; a triple that is
+not `converged` has status `error` and one of the four error messages. -/
+theorem newton_failure_is_reported (empty : Bool) (x0 : X)
+    (h : o.zeroSafe = true ∨ (1 ≤ o.maxiter ∧ 1 ≤ o.btMaxiter)) :
     (∃ m k, (solve wd o empty x0).1 = .ret .converged m k ∧ (m = .solved ∨ m = .noVars)) ∨
     (∃ m k, (solve wd o empty x0).1 = .ret .error m k ∧
       (m = .timeLimit ∨ m = .singular ∨ m = .lineSearch ∨ m = .maxIter)) := by
@@ -79,27 +80,36 @@ theorem newton_failure_is_reported (empty : Bool) (x0 : X) (h1 : 1 ≤ o.maxiter
   | true => exact Or.inl ⟨_, _, rfl, Or.inr rfl⟩
   | false =>
     simp only [Bool.false_eq_true, if_false]
-    rcases outer_reported wd o o.maxiter 0 _ (good_init wd o x0) with (⟨k, h⟩ | ⟨m, k, h, hm⟩) | ⟨_, hz⟩
-    · exact Or.inl ⟨_, k, h, Or.inl rfl⟩
-    · exact Or.inr ⟨m, k, h, hm⟩
-    · omega
+    rcases outer_reported wd o o.maxiter 0 _ (good_init wd o x0) with (⟨k, h'⟩ | ⟨m, k, h', hm⟩) | ⟨_, hz, hs⟩
+    · exact Or.inl ⟨_, k, h', Or.inl rfl⟩
+    · exact Or.inr ⟨m, k, h', hm⟩
+    · rcases h with h | h
+      · rw [hs] at h; cases h
+      · omega
 
+/-- the UnboundLocalError exists only in the variant without the bindings, and only for a zero limit -/
 theorem newton_crash_only_with_zero_limits (empty : Bool) (x0 : X) (h : (solve wd o empty x0).1 = .crash) :
-    o.maxiter = 0 ∨ o.btMaxiter = 0 := by
+    (o.maxiter = 0 ∨ o.btMaxiter = 0) ∧ o.zeroSafe = false := by
   unfold solve at h
   cases empty with
   | true => simp at h
   | false =>
     simp only [Bool.false_eq_true, if_false] at h
-    rcases outer_reported wd o o.maxiter 0 _ (good_init wd o x0) with (⟨k, h'⟩ | ⟨m, k, h', _⟩) | ⟨_, hz⟩
+    rcases outer_reported wd o o.maxiter 0 _ (good_init wd o x0) with (⟨k, h'⟩ | ⟨m, k, h', _⟩) | ⟨_, hz, hs⟩
     · rw [h] at h'; cases h'
     · rw [h] at h'; cases h'
-    · exact hz
+    · exact ⟨hz, hs⟩
 
 /-- the code does have that hole: `MAXITER = 0` dies at the final `return` (`outer_iter` unbound) -/
 theorem newton_crash_witness : (solve (traceWorld ⟨[some 1], [], none⟩)
-    { maxiter := 0, tol := 1, rho := 1/2, btMaxiter := 1, bt := true, btStartIter := 0, c1 := 0 } false 0).1 = .crash := by
-  decide
+    { maxiter := 0, tol := 1, rho := 1/2, btMaxiter := 1, bt := true, btStartIter := 0, c1 := 0 } false 0).1 = .crash ∧
+    (solve (traceWorld ⟨[some 1], [], none⟩)
+    { maxiter := 0, tol := 1, rho := 1/2, btMaxiter := 1, bt := true, btStartIter := 0, c1 := 0, zeroSafe := true } false 0).1 =
+      .ret .error .maxIter 0 ∧
+    (solve (traceWorld ⟨[some 1], [], none⟩)
+    { maxiter := 2, tol := 1/2, rho := 1/2, btMaxiter := 0, bt := true, btStartIter := 0, c1 := 0, zeroSafe := true } false 0).1 =
+      .ret .error .lineSearch 0 := by
+  decide +kernel
 
 /-! ### `_solver_helper` and `run_sim` -/
 
@@ -115,25 +125,33 @@ def toRunLoop : Outcome → Option Wntr.RunLoop.SolveOutcome
 /-- **helper_newton_faithful**: through `_solver_helper` with `solver is NewtonSolver`, `run_sim` sees `solver_status == 0`
 exactly when `solve` returned status error, status 1 exactly when it returned converged, with the iteration count passed
 on; an UnboundLocalError is not swallowed -/
-theorem helper_newton_faithful (out : Outcome) (sci : ScipyResult) :
-    ((helper .newton out sci).failed = true ↔ ∃ m k, out = .ret .error m k) ∧
-    (∀ k, helper .newton out sci = .ret 1 (some k) ↔ ∃ m, out = .ret .converged m k) ∧
-    (helper .newton out sci = .unboundLocal ↔ out = .crash) := by
+theorem helper_newton_faithful (sh : HelperShape) (out : Outcome) (sci : ScipyResult) :
+    ((helper sh .newton out sci).failed = true ↔ ∃ m k, out = .ret .error m k) ∧
+    (∀ k, helper sh .newton out sci = .ret 1 (some k) ↔ ∃ m, out = .ret .converged m k) ∧
+    (helper sh .newton out sci = .unboundLocal ↔ out = .crash) := by
   cases out with
   | crash => simp [helper, Helper.failed]
   | ret st m k => cases st <;> simp [helper, Helper.failed]
 
-/-- for the scipy solvers the helper reports failure exactly when `ier != 1` / an exception occurred, and never an
-iteration count (the `None` that fix 38b17a43 made `run_sim` print as `-`) -/
-theorem helper_scipy (kind : SolverKind) (hk : kind = .fsolve ∨ kind = .scipyOther) (out : Outcome) (sci : ScipyResult) :
-    ((helper kind out sci).failed = true ↔ sci.ok = false) ∧
-    (helper kind out sci = .ret 1 none ∨ helper kind out sci = .ret 0 none) := by
-  rcases hk with rfl | rfl <;> cases h : sci.ok <;> simp [helper, Helper.failed, h]
+/-- **helper_scipy_failure_is_reported**: with the bare `except:` of the reference shape, whatever way a scipy nonlinear
+solver (or the `load_var_values_from_x` after it) fails, `_solver_helper` returns status 0 and `run_sim` sees a failed
+step; nothing escapes.  For `fsolve` only `ier != 1` is mapped (that branch has no `try`). -/
+theorem helper_scipy_failure_is_reported (out : Outcome) (sci : ScipyResult) :
+    ((helper refHelperShape .scipyOther out sci).failed = true ↔ sci ≠ .ok) ∧
+    helper refHelperShape .scipyOther out sci ≠ .escaped ∧
+    ((helper refHelperShape .fsolve out sci).failed = true ↔ sci = .notConverged) ∧
+    (helper refHelperShape .fsolve out sci = .escaped ↔ sci = .otherException) := by
+  cases sci <;> simp [helper, Helper.failed, refHelperShape, Catch.catches]
+
+/-- a narrowed `except` clause lets other exceptions through (why the clause is part of the skeleton) -/
+theorem helper_narrow_catch_escapes (out : Outcome) :
+    helper { refHelperShape with scipyCatch := .only ["NoConvergence"] } .scipyOther out .otherException = .escaped := by
+  simp [helper, Catch.catches]
 
 /-- **run_sim_accepts_only_small_residuals**: a step that `run_sim` treats as solved by the Newton solver
 (`solver_status != 0`) left the model in a state with residual norm below TOL (or the model has no variables) -/
 theorem run_sim_accepts_only_small_residuals (empty : Bool) (x0 : X) (sci : ScipyResult) (k : Option Nat)
-    (h : helper .newton (solve wd o empty x0).1 sci = .ret 1 k) :
+    (sh : HelperShape) (h : helper sh .newton (solve wd o empty x0).1 sci = .ret 1 k) :
     empty = true ∨ ∃ v, wd.norm (solve wd o empty x0).2.loaded = some v ∧ v < o.tol := by
   cases hs : (solve wd o empty x0).1 with
   | crash => rw [hs] at h; simp [helper] at h
@@ -157,11 +175,29 @@ theorem toRunLoop_ok (out : Outcome) (r : Wntr.RunLoop.SolveOutcome) (h : toRunL
 
 /-- the statements of `NewtonSolver.solve` (order, every `return` with its status and message, both `for` ranges, the
 `try/except MatrixRankWarning`, `break`, the decrease test, the exhaustion test) are those the model was written from -/
-theorem generated_newton_shape_is_ref : Gen.solveShape = refSolve := by decide
+theorem generated_newton_shape_is_ref : Gen.solveShape = refSolve Gen.defaults.zeroSafe := by decide
+
+/-- the branches of `_solver_helper`, in particular WHICH exceptions of the scipy solvers are caught, are the reference ones -/
+theorem generated_helper_shape_is_ref : Gen.helperShape = refHelperShape := by decide
+
+/-- so for the helper read off the source every failure of a scipy nonlinear solver is a reported failed step -/
+theorem generated_helper_reports_scipy_failures (out : Outcome) (sci : ScipyResult) (h : sci ≠ .ok) :
+    (helper Gen.helperShape .scipyOther out sci).failed = true := by
+  rw [generated_helper_shape_is_ref]
+  exact (helper_scipy_failure_is_reported out sci).1.2 h
 
 /-- the shipped defaults cannot hit the UnboundLocalError holes and have a positive tolerance -/
 theorem generated_defaults_safe : 1 ≤ Gen.defaults.maxiter ∧ 1 ≤ Gen.defaults.btMaxiter ∧ 0 < Gen.defaults.tol ∧
     0 < Gen.defaults.rho ∧ Gen.defaults.rho < 1 := by decide +kernel
+
+/-- once the source binds the loop variables (`Gen.defaults.zeroSafe`), `newton_failure_is_reported` holds for EVERY option
+set that differs from the defaults only in the user-settable fields -/
+theorem generated_failure_reported_unconditional (hz : Gen.defaults.zeroSafe = true) (o' : Opts)
+    (ho : o'.zeroSafe = Gen.defaults.zeroSafe) (empty : Bool) (x0 : X) :
+    (∃ m k, (solve wd o' empty x0).1 = .ret .converged m k ∧ (m = .solved ∨ m = .noVars)) ∨
+    (∃ m k, (solve wd o' empty x0).1 = .ret .error m k ∧
+      (m = .timeLimit ∨ m = .singular ∨ m = .lineSearch ∨ m = .maxIter)) :=
+  newton_failure_is_reported wd o' empty x0 (Or.inl (ho.trans hz))
 
 /-! ### non-vacuity (trace world: norms in evaluation order) -/
 
